@@ -616,7 +616,8 @@ def explore(cfg: Config, max_exec: int = 0, prune: bool = True, deadline: float 
             stats["pruned"] += 1
         elif ex.status in ("returned", "raised"):
             stats["terminal"] += 1
-            outcomes.add(ex.outcome if ex.status == "returned" else ("raised", repr(ex.exc)[:120]))
+            if ex.status == "returned":  # a raising run is reported by its own monitor, not as schedule dependence
+                outcomes.add(ex.outcome)
             shape = tuple(l[0] for l in ex.sim.log)
             if shape not in cmd_shapes and ex.status == "returned" and len(traces) < keep_traces and not ex.sim.violations:
                 traces.append(list(prefix))
